@@ -39,6 +39,8 @@ pub struct Gen<'a, 'b> {
     pub max_depth: usize,
     pub max_len: usize,
     pub allow_large: bool,
+    /// Some(n): the (one) large container has exactly n elements and is always taken when a cheap container is met
+    pub large_n: Option<usize>,
     pub large_used: bool,
     /// chance out of 16 that a generated curve point is outside the prime-order subgroup
     pub bad_points: u64,
@@ -51,7 +53,7 @@ pub struct Gen<'a, 'b> {
 
 impl<'a, 'b> Gen<'a, 'b> {
     pub fn new(t: &'a mut Tape<'b>, budget: usize) -> Self {
-        Gen { t, prng: None, budget, depth: 0, max_depth: 0, max_len: 0, allow_large: false, large_used: false, bad_points: 0, n_points: 0, n_bad: 0, n_empty: 0, n_wrapped: 0 }
+        Gen { t, prng: None, budget, depth: 0, max_depth: 0, max_len: 0, allow_large: false, large_n: None, large_used: false, bad_points: 0, n_points: 0, n_bad: 0, n_empty: 0, n_wrapped: 0 }
     }
     pub fn u64(&mut self) -> u64 {
         match self.prng.as_mut() {
@@ -104,14 +106,17 @@ impl<'a, 'b> Gen<'a, 'b> {
     /// expanded from one tape word). Returns (len, token to pass to `end`).
     pub fn begin(&mut self, cheap: bool) -> (usize, Option<Option<u64>>) {
         let large_ok = cheap && self.allow_large && !self.large_used && self.prng.is_none();
-        let cls = self.weighted(&[3, 3, 6, 3, if large_ok { 30 } else { 0 }]);
+        let cls = if large_ok && self.large_n.is_some() { 4 } else { self.weighted(&[3, 3, 6, 3, if large_ok { 30 } else { 0 }]) };
         let (n, tok) = match cls {
             0 => (0, None),
             1 => (1, None),
             2 => (2 + self.idx(3), None),
             3 => (5 + self.idx(16), None),
             _ => {
-                let n = 10_000 + self.idx(100);
+                let n = match self.large_n {
+                    Some(n) => n,
+                    None => 10_000 + self.idx(100),
+                };
                 self.large_used = true;
                 let seed = self.t.u64();
                 let saved = self.prng.replace(seed);
